@@ -425,7 +425,12 @@ def rule_codec(ctx):
     c01.rule_count(scratch)
     for fn_ in (c01.rule_str, c01.rule_node, c01.rule_layer):
         ctx.guarded("C02.enc", fn_, scratch)
-    ctx.adopt(scratch, {"C01.int": "C02.enc", "C01.class": "C02.enc", "C01.count": "C02.enc", "C01.str": "C02.enc", "C01.node": "C02.enc", "C01.layer": "C02.enc", "C01.unpack": "C02.unpack"})
+    # the token tables are only as good as the two lookups over them: both executed for every word (C01.dict)
+    scratch.rule("C01.dict", "", 0)
+    lists = c01.dictionary_lists(scratch)
+    if lists.get("dictionary") and lists.get("secondaryDictionary"):
+        ctx.guarded("C02.dictref", c01.rule_dict_lookup, scratch, lists["dictionary"], lists["secondaryDictionary"])
+    ctx.adopt(scratch, {"C01.dict": "C02.dictref", "C01.int": "C02.enc", "C01.class": "C02.enc", "C01.count": "C02.enc", "C01.str": "C02.enc", "C01.node": "C02.enc", "C01.layer": "C02.enc", "C01.unpack": "C02.unpack"})
 
 
 def run(ctx):
